@@ -62,6 +62,113 @@ theorem c08_build_guard (x x' : Ext K) (o : XOps K)
   unfold Problem.build
   exact c08_svd_guard x x' o hagree _ _
 
+/-! ### the panic site of the decomposition step, made explicit
+
+`Matrix::svd(true, true)` sorts the singular values with `partial_cmp(..).expect("Singular value was
+NaN")`: it panics exactly when a singular value is NaN.  The step as it was before the repair
+(`svdStepOld`) and as it is now (`svdStepNew`: unordered decomposition, finiteness check, then the
+sort) are modelled with the panic as an outcome. -/
+
+/-- outcome of the decomposition step of `set_params` -/
+inductive SvdStep (n m : Nat) (K : Type) where
+  | panic
+  | rejected
+  | ok (d : SVD n m K)
+
+/-- before the repair: decompose and sort; the sort panics on a NaN singular value -/
+def svdStepOld (x : Ext K) (isNaN : K → Bool) (A : Mat n m K) : SvdStep n m K :=
+  let d := x.svd n m A
+  if d.sigma.any isNaN then .panic else .ok d
+
+/-- after the repair: decompose, discard a decomposition with a singular value that is not finite,
+sort the others (the sort is reached with finite – hence comparable – values only) -/
+def svdStepNew (x : Ext K) (o : XOps K) (isNaN : K → Bool) (A : Mat n m K) : SvdStep n m K :=
+  let d := x.svd n m A
+  if d.sigma.all o.isFinite then (if d.sigma.any isNaN then .panic else .ok d) else .rejected
+
+/-- **c08_old_panics_iff**: the old step panics exactly on a decomposition with a NaN singular
+value – for a FINITE input matrix too (the genuine defect repaired by commit 88a7c8e). -/
+theorem c08_old_panics_iff (x : Ext K) (isNaN : K → Bool) (A : Mat n m K) :
+    svdStepOld x isNaN A = .panic ↔ (x.svd n m A).sigma.any isNaN = true := by
+  unfold svdStepOld
+  by_cases h : (x.svd n m A).sigma.any isNaN = true <;> simp [h]
+
+/-- **c08_new_never_panics**: a finite value is not NaN, so the repaired step never reaches the
+sort with a NaN: it has no panic outcome, whatever the SVD routine returns. -/
+theorem c08_new_never_panics (x : Ext K) (o : XOps K) (isNaN : K → Bool)
+    (hfin : ∀ v, o.isFinite v = true → isNaN v = false) (A : Mat n m K) :
+    svdStepNew x o isNaN A ≠ .panic := by
+  unfold svdStepNew
+  by_cases h : (x.svd n m A).sigma.all o.isFinite = true
+  · have hn : (x.svd n m A).sigma.any isNaN = false := by
+      rw [Bool.eq_false_iff]
+      intro hany
+      rw [Vector.any_eq_true] at hany
+      obtain ⟨i, hi, hv⟩ := hany
+      have := (Vector.all_eq_true.mp h) i hi
+      rw [hfin _ this] at hv
+      cases hv
+    simp [h, hn]
+  · simp [h]
+
+/-- where the repaired step accepts, the old step accepted the same decomposition; where the old
+step panicked, the repaired one rejects: behaviour changed on the panicking inputs only
+(and on decompositions with infinite singular values, which are now rejected as well). -/
+theorem c08_new_refines_old (x : Ext K) (o : XOps K) (isNaN : K → Bool)
+    (hfin : ∀ v, o.isFinite v = true → isNaN v = false) (A : Mat n m K) :
+    (∀ d, svdStepNew x o isNaN A = .ok d → svdStepOld x isNaN A = .ok d) ∧
+    (svdStepOld x isNaN A = .panic → svdStepNew x o isNaN A = .rejected) := by
+  constructor
+  · intro d h
+    unfold svdStepNew at h
+    unfold svdStepOld
+    by_cases hf : (x.svd n m A).sigma.all o.isFinite = true
+    · by_cases hn : (x.svd n m A).sigma.any isNaN = true
+      · simp [hf, hn] at h
+      · simpa [hf, hn] using h
+    · simp [hf] at h
+  · intro h
+    have hn := (c08_old_panics_iff x isNaN A).mp h
+    unfold svdStepNew
+    have hf : ¬ (x.svd n m A).sigma.all o.isFinite = true := by
+      intro hf
+      rw [Vector.any_eq_true] at hn
+      obtain ⟨i, hi, hv⟩ := hn
+      have := (Vector.all_eq_true.mp hf) i hi
+      rw [hfin _ this] at hv
+      cases hv
+    simp [hf]
+
+/-- `computeCache` is the repaired step followed by the truncated solve: its cache is present only
+where the step accepted -/
+theorem c08_cache_some_step_ok (x : Ext K) (o : XOps K) (isNaN : K → Bool)
+    (hfin : ∀ v, o.isFinite v = true → isNaN v = false)
+    (Yw : Mat n s K) (eps : K) (A : Mat n m K) (c : Cache n m s K)
+    (h : computeCache x o Yw eps A = some c) :
+    svdStepNew x o isNaN A = .ok c.svd := by
+  have hs := (c08_cache_finite x o Yw eps A c h).2
+  have hd : c.svd = x.svd n m A := by
+    unfold computeCache at h
+    by_cases hf : A.all o.isFinite = true
+    · by_cases hsg : (x.svd n m A).sigma.all o.isFinite = true
+      · simp only [hf, hsg, if_true] at h
+        split at h
+        · cases h
+        · cases h; rfl
+      · simp [hf, hsg] at h
+    · simp [hf] at h
+  rw [hd] at hs ⊢
+  unfold svdStepNew
+  have hn : (x.svd n m A).sigma.any isNaN = false := by
+    rw [Bool.eq_false_iff]
+    intro hany
+    rw [Vector.any_eq_true] at hany
+    obtain ⟨i, hi, hv⟩ := hany
+    have := (Vector.all_eq_true.mp hs) i hi
+    rw [hfin _ this] at hv
+    cases hv
+  simp [hs, hn]
+
 end Varpro
 
 namespace Varpro.LM
